@@ -228,11 +228,11 @@ class C04(Check):
         crng = random.Random(self.seed + 991)
         for ci, (key, desc, replay, step) in enumerate(todo):
             for ti, prog in enumerate(self.scale_up_programs(replay, step)):
-                jobs.append({"flavour": "ser", "kind": "prog", "args": {"prog": prog, "thr": 1, "maxtri": 400000}, "timeout": 600,
+                jobs.append({"flavour": "ser", "kind": "prog", "args": {"prog": prog, "thr": 1, "maxtri": 1000000}, "timeout": 600,
                              "cand": ci, "try": ti, "role": "ref"})
                 for W in WS:
                     pa = {"W": W, "stay": crng.choice([30, 60]), "own": 70, "seed": crng.randrange(1, 1 << 30), "thr": 1}
-                    jobs.append({"flavour": "par", "kind": "prog", "args": dict({"prog": prog, "maxtri": 400000}, **pa), "timeout": 600,
+                    jobs.append({"flavour": "par", "kind": "prog", "args": dict({"prog": prog, "maxtri": 1000000}, **pa), "timeout": 600,
                                  "cand": ci, "try": ti, "role": "par", "pa": pa, "prog": prog})
         res = self.pool.run_all(jobs) if jobs else []
         confirmed = {}
@@ -249,7 +249,7 @@ class C04(Check):
             key = todo[j["cand"]][0]
             for (s_, o, f) in compare(ref, r["res"], None):
                 if gen.op_kind(o) == key["op_kind"]:
-                    confirmed[j["cand"]] = {"property": "C04", "program": j["prog"], "lazy": 0, "par_args": j["pa"], "maxtri": 400000, "arm": "confirm"}
+                    confirmed[j["cand"]] = {"property": "C04", "program": j["prog"], "lazy": 0, "par_args": j["pa"], "maxtri": 1000000, "arm": "confirm"}
                     break
         for ci, (key, desc, replay, step) in enumerate(todo):
             if ci in confirmed:
@@ -295,7 +295,8 @@ class C04(Check):
             if name == "sphere":
                 return ["sphere:%s,66" % a[0]]
             if name == "cellrow":
-                return ["cellrow:%d,%s,%s" % (m, a[1], a[2]) for m in (3000, 3001, 3002, rng.randint(2500, 5500))]
+                # 44500 boxes: above the 2^18-vertex threshold of CreateHalfedges' large-vertex-count path
+                return ["cellrow:%d,%s,%s" % (m, a[1], a[2]) for m in (3000, 3001, 3002, rng.randint(2500, 5500), 44500)]
             if name == "circle":
                 return ["circle:%s,1800" % a[0]]
             if name == "cyl":
